@@ -96,12 +96,20 @@ func (c *Conn) Append(p []byte) {
 // server side is not blocked in a Read, as with netpoll).
 func (c *Conn) PeerClosed() {
 	c.mu.Lock()
-	first := !c.eofSeen && c.pos == len(c.in) && c.End == "eof"
+	first := !c.eofSeen && c.pos == len(c.in)
 	if first {
 		c.eofSeen = true
 	}
+	stall := c.End == "stall"
 	c.mu.Unlock()
-	if first && c.OnEOF != nil {
+	if !first {
+		return
+	}
+	if stall { // the peer stays silent: the poller's idle time-out ends the connection
+		if c.OnTimeout != nil {
+			c.OnTimeout()
+		}
+	} else if c.OnEOF != nil {
 		c.OnEOF()
 	}
 }
